@@ -307,7 +307,7 @@ def gfa_text(g, with_seq=True, extra_tags=None, order_seed=None, header=False, l
     if order_seed is not None and order_seed % 5 == 2 and s_lines:
         # other record types of the GFA family between the S and L lines: comments, a header, paths and walks
         first = s_lines[0].split("\t")[1]
-        extra = ["# produced by a pipeline", "H\tVN:Z:1.1", "P\tpath1\t%s+\t*" % first,
+        extra = ["# produced by a pipeline", "", "H\tVN:Z:1.1", "P\tpath1\t%s+\t*" % first,
                  "W\tsample\t1\tctg\t0\t1\t>%s" % first]
         rnd = random.Random(order_seed)
         for e in extra:
